@@ -130,6 +130,36 @@ pub fn generate(tier: &str, rng: &mut Prng) -> Vec<Case> {
     let mut ops = vec![];
     let thorough = tier == "thorough";
     for n in [512usize, 1024] {
+        // keys from seeds whose candidate stream contains an (F, G) outside the 8-bit range: exported to the reference
+        for ks in crate::seeds::special(n, tier, "range_capital", 3) {
+            let msg = rng.bytes(12);
+            ops.push(Case::new(format!("interop_export {n} {} {}", hex(&ks), hex(&msg))));
+        }
+        // signatures whose hashed stream (salt || message) contains a 16-bit word at / next to the rejection threshold 5q
+        // before n coefficients are collected: both sides must skip or keep the same words.  The salt is the first 40
+        // bytes of the injected generator, so (generator seed, message) pairs are searched with the reference hash.
+        {
+            use rand::RngCore;
+            let ks = vec![16u8, n as u8 / 4];
+            let mut found = 0;
+            let mut tries = 0u64;
+            let want = if thorough { 12 } else { 4 };
+            while found < want && tries < 200_000 {
+                tries += 1;
+                let rs = rng.next() >> 1;
+                let msg = format!("threshold {tries}").into_bytes();
+                let mut salt = [0u8; 40];
+                crate::sign::injected_rng(rs).fill_bytes(&mut salt);
+                let mut m = salt.to_vec();
+                m.extend_from_slice(&msg);
+                let (_, seen) = crate::c14::reference(&m, n);
+                let target = if found % 2 == 0 { 61445 } else { 61444 };
+                if seen.iter().any(|&t| t == target) {
+                    ops.push(Case::new(format!("interop_ours {n} {} {} {rs}", hex(&ks), hex(&msg))));
+                    found += 1;
+                }
+            }
+        }
         for k in 0..(if thorough { 16 } else { 2 }) {
             let ks = if k == 0 { vec![16u8, n as u8 / 4] } else { seed_for(rng, 16) };
             for _ in 0..(if thorough { 60 } else { 8 }) {
